@@ -1,12 +1,18 @@
 package props
 
 import (
+	"bytes"
+	"encoding/json"
 	"fmt"
+	"net/http"
 	"os"
+	"sort"
 	"strings"
+	"time"
 
 	"verifharness/client"
 	"verifharness/core"
+	"verifharness/inproc"
 	"verifharness/lnmodel"
 	"verifharness/menv"
 	"verifharness/refcrypto"
@@ -235,6 +241,7 @@ func runC05(r *core.Run) {
 		defer os.RemoveAll(t.dir)
 	}
 	r.Exhaustive(!quick(r))
+	c05HTTPResend(r, tmpls[false])
 	core.Parallel(len(jobs), 16, func(ji int) {
 		j := jobs[ji]
 		t := tmpls[j.mpp]
@@ -473,4 +480,112 @@ func runC05(r *core.Run) {
 		}
 		r.Sample("pay="+pay+fmt.Sprintf("/polls=%d", len(j.chans)), map[string]any{"script": script, "observations": obs})
 	})
+}
+
+// c05HTTPResend: the same statement seen from a client that talks HTTP and, as clients do, sends the
+// byte-identical melt request again when it is unsure. Every 200 answer to a melt request must agree
+// with the state the mint has persisted at that moment (PENDING with locked inputs, PAID with the
+// preimage and spent inputs, UNPAID with released ones), the re-sent request included.
+func c05HTTPResend(r *core.Run, t *c05tmpl) {
+	type step struct {
+		plan    *lnmodel.PayPlan // melt (re-)sent with this pay plan; nil: no melt in this step
+		resolve string           // "", "success", "failed": what Lightning does before the step's poll
+	}
+	cases := map[string][]step{
+		"pending-failed-resend-succeeds":   {{plan: &lnmodel.PayPlan{Answer: lnmodel.APending, Truth: lnmodel.InFlight}}, {resolve: "failed"}, {plan: &lnmodel.PayPlan{Answer: lnmodel.ASucceeded}}},
+		"pending-failed-resend-pending":    {{plan: &lnmodel.PayPlan{Answer: lnmodel.APending, Truth: lnmodel.InFlight}}, {resolve: "failed"}, {plan: &lnmodel.PayPlan{Answer: lnmodel.APending, Truth: lnmodel.InFlight}}, {resolve: "success"}},
+		"pending-succeeds-resend":          {{plan: &lnmodel.PayPlan{Answer: lnmodel.APending, Truth: lnmodel.InFlight}}, {resolve: "success"}, {plan: &lnmodel.PayPlan{Answer: lnmodel.ASucceeded}}},
+		"failed-resend-succeeds":           {{plan: &lnmodel.PayPlan{Answer: lnmodel.AFailed}}, {plan: &lnmodel.PayPlan{Answer: lnmodel.ASucceeded}}},
+		"failed-resend-fails-resend-again": {{plan: &lnmodel.PayPlan{Answer: lnmodel.AFailed}}, {plan: &lnmodel.PayPlan{Answer: lnmodel.AFailed}}, {plan: &lnmodel.PayPlan{Answer: lnmodel.ASucceeded}}},
+		"pending-resend-while-pending":     {{plan: &lnmodel.PayPlan{Answer: lnmodel.APending, Truth: lnmodel.InFlight}}, {plan: &lnmodel.PayPlan{Answer: lnmodel.ASucceeded}}, {resolve: "success"}},
+	}
+	var names []string
+	for n := range cases {
+		names = append(names, n)
+	}
+	sort.Strings(names)
+	for ci, name := range names {
+		sig := "http-resend/" + name
+		if !r.Want(sig) {
+			continue
+		}
+		func() {
+			dir := core.TempDir("c05h")
+			defer os.RemoveAll(dir)
+			if err := core.CopyDir(t.dir, dir); err != nil {
+				r.Inconclusive("copy: " + err.Error())
+				return
+			}
+			env, err := menv.New(t.world.Clone(int64(90000+ci)), "m0", dir, menv.Opts{})
+			if err != nil {
+				r.Inconclusive("load: " + err.Error())
+				return
+			}
+			defer env.Close()
+			var obs []string
+			viol := func(kind, what string) {
+				r.Violate("http-resend:"+kind+":"+name, what, sig, map[string]any{"case": name, "observations": obs})
+			}
+			body, _ := json.Marshal(map[string]any{"quote": t.quote, "inputs": cashu.Proofs{t.coin}})
+			send := func(method, path string, b []byte) (int, string, string) {
+				req, _ := http.NewRequest(method, "http://mint"+path, bytes.NewReader(b))
+				req.Header.Set("Content-Type", "application/json")
+				st, _, rb, p, hang := inproc.Serve(env.Handler(), req, 60*time.Second)
+				if p != "" || hang {
+					viol("handler-died", fmt.Sprintf("%s %s: panic=%q hang=%v", method, path, p, hang))
+					return 0, "", ""
+				}
+				var resp struct {
+					State    string `json:"state"`
+					Preimage string `json:"payment_preimage"`
+				}
+				json.Unmarshal(rb, &resp)
+				return st, resp.State, resp.Preimage
+			}
+			agree := func(what string, st int, state, pre string) {
+				abs, det := c05Observe(env, t)
+				obs = append(obs, fmt.Sprintf("%s -> %d %s; persisted %s (%s)", what, st, state, abs, det))
+				r.Eval(sig+"/"+what, true)
+				if st != 200 {
+					return // a refusal says nothing about the state; the polls below do
+				}
+				want := map[string]string{"L": "PENDING", "S": "PAID", "R": "UNPAID"}[abs]
+				if want == "" || state != want {
+					viol("answer-disagrees-with-state", fmt.Sprintf("%s was answered 200 %s while the persisted state is %s (%s)", what, state, abs, det))
+				}
+				if abs == "S" && pre != t.pre {
+					viol("paid-without-preimage", what+" was answered PAID without the payment's preimage")
+				}
+			}
+			for si, stp := range cases[name] {
+				if stp.resolve != "" {
+					t0, _ := c05Observe(env, t)
+					env.World.Resolve("m0", t.hash, stp.resolve == "success")
+					st, state, pre := send("GET", "/v1/melt/quote/bolt11/"+t.quote, nil)
+					agree(fmt.Sprintf("step%d:poll-after-ln-%s", si, stp.resolve), st, state, pre)
+					if abs, _ := c05Observe(env, t); t0 == "L" && abs != map[string]string{"success": "S", "failed": "R"}[stp.resolve] {
+						viol("poll-did-not-adopt-outcome", fmt.Sprintf("Lightning reports %s, the poll left the state %s", stp.resolve, abs))
+					}
+					continue
+				}
+				before, _ := c05Observe(env, t)
+				calls0 := len(env.World.PayCallsCopy())
+				env.Node.PlanPay(t.hash, *stp.plan)
+				st, state, pre := send("POST", "/v1/melt/bolt11", body)
+				agree(fmt.Sprintf("step%d:melt", si), st, state, pre)
+				made := len(env.World.PayCallsCopy()) - calls0
+				// released inputs and an UNPAID quote: the request is a new attempt and must reach the backend
+				if before == "R" && made == 0 && st == 200 {
+					viol("resend-not-executed", "a melt request re-sent after the inputs had been released was answered 200 without a payment attempt")
+				}
+				if before != "R" && before != "?" && si > 0 && made > 0 {
+					viol("resend-paid-again", fmt.Sprintf("a melt request re-sent in state %s made another payment attempt", before))
+				}
+			}
+			r.Sample("http-resend/"+name, map[string]any{"case": name, "observations": obs})
+			if os.Getenv("VERIF_DEBUG_LOG") != "" {
+				fmt.Fprintf(os.Stderr, "http-resend %s:\n  %s\n", name, strings.Join(obs, "\n  "))
+			}
+		}()
+	}
 }
